@@ -349,7 +349,7 @@ pub fn profile(prop: &str, tier: &str) -> Profile {
         },
         "C03" => Profile {
             name: "C03",
-            threads: (2, 3),
+            threads: (2, 4),
             max_ops: 4,
             weights: cat(&[SENDS, RECVS, HANDLES]),
             pays: vec![Pay::P4, Pay::P16],
